@@ -347,6 +347,67 @@ theorem initOne_spec {pi tiny : ℝ} (ht : 0 < tiny) {sh : Shape ℝ} {v : ℝ} 
     unfold nudgeHi at e g
     exact ⟨.r t, by simp [initOne, e], ⟨hb, hp, hs⟩, by simpa [TP.getOriginal, nudge, nudgeHi] using g⟩
 
+/-- `1e-9`, the distance from a bound down to which the property quantifies -/
+noncomputable def margin : ℝ := 1 / 10 ^ 9
+
+/-- the property's quantifier on initial values: inside the constraint and at least `1e-9` away
+from every finite bound -/
+def Margin : Shape ℝ → ℝ → Prop
+  | .none, _ => True
+  | .cc a b, v => a + margin ≤ v ∧ v ≤ b - margin
+  | .oo a b, v => a + margin ≤ v ∧ v ≤ b - margin
+  | .co a b, v => a + margin ≤ v ∧ v ≤ b - margin
+  | .oc a b, v => a + margin ≤ v ∧ v ≤ b - margin
+  | .gt a, v => a + margin ≤ v
+  | .ge a, v => a + margin ≤ v
+  | .lt b, v => v ≤ b - margin
+  | .le b, v => v ≤ b - margin
+
+/-- the nudge `TINY()` of the bounds is smaller than the property's margin: this is what makes
+every value of the property's quantifier admissible (false for e.g. `TINY() = 1e-8`) -/
+theorem libTINY_lt_margin : (libTINY : ℝ) < margin := by
+  simp only [libTINY, Generated.TransformConstants.TINY, ofRat_eq, margin]
+  norm_num
+
+theorem margin_admits {sh : Shape ℝ} {v : ℝ} (h : Margin sh v) :
+    Admits libTINY sh v ∧ NotNudged libTINY sh v := by
+  have h0 := libTINY_pos
+  have h1 := libTINY_lt_margin
+  have e : (margin : ℝ) = 1 / 1000000000 := by unfold margin; norm_num
+  rw [e] at h1
+  cases sh with
+  | none => exact ⟨trivial, trivial⟩
+  | cc a b =>
+    obtain ⟨p, q⟩ := h; rw [e] at p q
+    refine ⟨⟨by linarith, by linarith, by linarith⟩, ?_, ?_⟩
+    · exact le_trans (by linarith) (le_abs_self (v - a))
+    · exact le_trans (by linarith) (neg_le_abs (v - b))
+  | oo a b =>
+    obtain ⟨p, q⟩ := h; rw [e] at p q
+    exact ⟨⟨by linarith, by linarith⟩, trivial⟩
+  | co a b =>
+    obtain ⟨p, q⟩ := h; rw [e] at p q
+    exact ⟨⟨by linarith, by linarith, by linarith⟩, le_trans (by linarith) (le_abs_self (v - a))⟩
+  | oc a b =>
+    obtain ⟨p, q⟩ := h; rw [e] at p q
+    exact ⟨⟨by linarith, by linarith, by linarith⟩, le_trans (by linarith) (neg_le_abs (v - b))⟩
+  | gt a =>
+    have p : a + margin ≤ v := h
+    rw [e] at p
+    exact ⟨by show a + libTINY < v; linarith, trivial⟩
+  | ge a =>
+    have p : a + margin ≤ v := h
+    rw [e] at p
+    exact ⟨by show a ≤ v; linarith, le_trans (by linarith) (le_abs_self (v - a))⟩
+  | lt b =>
+    have p : v ≤ b - margin := h
+    rw [e] at p
+    exact ⟨by show v < b - libTINY; linarith, trivial⟩
+  | le b =>
+    have p : v ≤ b - margin := h
+    rw [e] at p
+    exact ⟨by show v ≤ b; linarith, le_trans (by linarith) (neg_le_abs (v - b))⟩
+
 /-! ### lists of slots: `init`, `fireParameterChanged`, `setParameters` -/
 
 theorem mapM_ok {A B E : Type} {f : A → Except E B} {g : A → B} :
